@@ -234,6 +234,8 @@ def dhcp_option_bytes(o):
 
 def _dhcp(rec):
   chaddr = bytes(rec.get("chaddr", b"\0" * 16))
+  if rec.get("hlen", 6) == 6:
+    chaddr = chaddr[:6]                  # an Ethernet address; the rest of the field is padding
   chaddr = chaddr + b"\0" * (16 - len(chaddr))
   sname = bytes(rec.get("sname", b""))
   sname += b"\0" * (64 - len(sname))
